@@ -80,6 +80,7 @@ Proof.
     pose proof (PW k o s) as H. destruct (poll k o s) as [s1 [x e]]. simpl in *. destruct x; simpl; auto.
   - destruct (tget k (held s)); reflexivity.
   - reflexivity.
+  - destruct (free_iter k s && usable k (base s) && negb (det (it_of k (base s)))); reflexivity.
 Qed.
 
 Theorem never_woken_run h : forall s, wakes (fst (arun s h)) = wakes s.
